@@ -5,6 +5,7 @@ import (
 	"go/ast"
 	"go/token"
 	"go/types"
+	"strings"
 
 	"golang.org/x/tools/go/cfg"
 )
@@ -37,10 +38,7 @@ func ruleR27R28(c *Ctx) {
 	info := c.m.Info
 	lits := c.seqLiterals()
 	for _, u := range lits {
-		props := c.attribute(u, "C14")
-		if len(props) == 0 {
-			props = []string{"C14"}
-		}
+		props := append([]string{"C14"}, c.attribute(u, "C02", "C03", "C04")...)
 		base := u.Name
 		for p := u.Parent; p != nil; p = p.Parent {
 			base = p.Name
@@ -184,25 +182,68 @@ func ruleR35(c *Ctx) {
 			c.r.undecided("R35", name+" exists", "-", "helper not found", "C05")
 			continue
 		}
-		for _, lu := range m.unitsOf(u)[1:] {
-			found := ""
-			var pos ast.Node = lu.Lit
-			ast.Inspect(lu.Body, func(n ast.Node) bool {
-				if rs, ok := n.(*ast.RangeStmt); ok {
-					if call, ok := ast.Unparen(rs.X).(*ast.CallExpr); ok {
-						if sel, ok := call.Fun.(*ast.SelectorExpr); ok {
-							found = sel.Sel.Name
-							pos = rs
-						}
-					}
+		found := map[string]bool{}
+		var pos ast.Node = u.Decl
+		ast.Inspect(u.Body, func(n ast.Node) bool {
+			if sel, ok := n.(*ast.SelectorExpr); ok && (sel.Sel.Name == "All" || sel.Sel.Name == "Backward") {
+				found[sel.Sel.Name] = true
+				pos = sel
+			}
+			return true
+		})
+		key := fmt.Sprintf("%s ranges over %s", name, want[name])
+		if len(found) == 1 && found[want[name]] {
+			c.r.ok("R35", key, m.pos(pos.Pos()), "first k of "+want[name]+"()", "C05")
+		} else {
+			c.r.bad("R35", key, m.pos(pos.Pos()), fmt.Sprintf("%s iterates %v; the first k elements of %s iteration are wanted", name, sortedKeys(found), map[string]string{"topK": "descending", "bottomK": "ascending"}[name]), "C05")
+		}
+	}
+	// Minimum/Maximum return exactly the leaf found by minimum/maximum(t.root)
+	for _, tk := range m.Trees {
+		for meth, helper := range map[string]string{"Minimum": "minimum", "Maximum": "maximum"} {
+			u := tk.Methods[meth]
+			if u == nil {
+				continue
+			}
+			info := m.Info
+			key := fmt.Sprintf("%s.%s returns the leaf found by %s(root)", tk.Name, meth, helper)
+			// every `return …, true` must return the results of restoreKey(x) with x := helper(t.root)
+			okAll, any := true, false
+			why := ""
+			ast.Inspect(u.Body, func(n ast.Node) bool {
+				rs, ok := n.(*ast.ReturnStmt)
+				if !ok || len(rs.Results) != 3 || !isConstBool(info, rs.Results[2], true) {
+					return true
+				}
+				any = true
+				kv := identVar(info, rs.Results[0])
+				var rk *ast.CallExpr
+				if kv != nil {
+					rk = c.defCallOf(u, kv)
+				}
+				if rk == nil || !strings.HasSuffix(m.calleeName(rk), ".restoreKey") || len(rk.Args) != 1 {
+					okAll, why = false, "the found key is not the result of restoreKey"
+					return true
+				}
+				lv := identVar(info, rk.Args[0])
+				var hc *ast.CallExpr
+				if lv != nil {
+					hc = c.defCallOf(u, lv)
+				} else if cc, ok := ast.Unparen(rk.Args[0]).(*ast.CallExpr); ok {
+					hc = cc
+				}
+				if hc == nil || m.calleeName(hc) != helper || len(hc.Args) != 1 || !c.isTreeRoot(hc.Args[0]) {
+					okAll, why = false, "the restored leaf is not the result of "+helper+"(t.root)"
 				}
 				return true
 			})
-			key := fmt.Sprintf("%s ranges over %s", name, want[name])
-			if found == want[name] {
-				c.r.ok("R35", key, m.pos(pos.Pos()), "first k of "+found+"()", "C05")
-			} else {
-				c.r.bad("R35", key, m.pos(pos.Pos()), fmt.Sprintf("%s ranges over %q; the first k elements of %s iteration are wanted", name, found, map[string]string{"topK": "descending", "bottomK": "ascending"}[name]), "C05")
+			switch {
+			case !any:
+				c.r.bad("R35", key, m.pos(u.Decl.Pos()), meth+" never reports a key as found", "C05")
+			case okAll:
+				c.r.ok("R35", key, m.pos(u.Decl.Pos()), "restoreKey("+helper+"(t.root))", "C05")
+			default:
+				c.r.bad("R35", key, m.pos(u.Decl.Pos()), why+": the reported extreme can disagree with the first/last element of iteration (a cache, another descent)", "C05")
 			}
 		}
 	}
@@ -232,4 +273,114 @@ func ruleR35(c *Ctx) {
 		}
 	}
 	c.r.floor("R35", 8, "call targets", "C05")
+}
+
+// R38 BUDGET (C05, C14) – in a bounded sequence every yield is dominated by "budget left".
+func ruleR38(c *Ctx) {
+	info := c.m.Info
+	m := c.m
+	n := 0
+	for _, u := range c.seqLiterals() {
+		// the literal must capture an integer parameter of an enclosing function (the bound k)
+		var bound *types.Var
+		for p := u.Parent; p != nil && bound == nil; p = p.Parent {
+			if p.Type.Params == nil {
+				continue
+			}
+			for _, f := range p.Type.Params.List {
+				for _, nm := range f.Names {
+					if v, _ := info.Defs[nm].(*types.Var); v != nil && isIntType(v.Type()) {
+						used := false
+						ast.Inspect(u.Body, func(x ast.Node) bool {
+							if id, ok := x.(*ast.Ident); ok && info.ObjectOf(id) == v {
+								used = true
+							}
+							return true
+						})
+						if used {
+							bound = v
+						}
+					}
+				}
+			}
+		}
+		if bound == nil {
+			continue
+		}
+		n++
+		props := []string{"C05", "C14"}
+		// counters: integer variables local to the literal that are stepped inside it
+		type ctr struct {
+			v    *types.Var
+			down bool
+		}
+		var ctrs []ctr
+		ast.Inspect(u.Body, func(x ast.Node) bool {
+			if inc, ok := x.(*ast.IncDecStmt); ok {
+				if v := identVar(info, inc.X); v != nil && v.Pos() >= u.Lit.Pos() && v.Pos() <= u.Lit.End() {
+					ctrs = append(ctrs, ctr{v, inc.Tok == token.DEC})
+				}
+			}
+			if as, ok := x.(*ast.AssignStmt); ok && (as.Tok == token.SUB_ASSIGN || as.Tok == token.ADD_ASSIGN) && len(as.Lhs) == 1 {
+				if v := identVar(info, as.Lhs[0]); v != nil && v.Pos() >= u.Lit.Pos() && v.Pos() <= u.Lit.End() {
+					ctrs = append(ctrs, ctr{v, as.Tok == token.SUB_ASSIGN})
+				}
+			}
+			return true
+		})
+		yv, _ := info.Defs[u.Type.Params.List[0].Names[0]].(*types.Var)
+		fl := c.e.flow(u)
+		nY := 0
+		fl.walk(func(node ast.Node, fs *FactSet, stmt ast.Node, b *cfg.Block) {
+			call, ok := node.(*ast.CallExpr)
+			if !ok || identVar(info, call.Fun) != yv {
+				return
+			}
+			nY++
+			key := fmt.Sprintf("%s yield only while the budget %s is not used up", u.Name, bound.Name())
+			if len(ctrs) == 0 {
+				c.r.undecided("R38", key, m.pos(call.Pos()), "bounded sequence without a per-pass counter that is stepped inside the closure", props...)
+				return
+			}
+			okAny := false
+			why := ""
+			for _, ct := range ctrs {
+				id := &ast.Ident{Name: ct.v.Name()}
+				_ = id
+				cv := linAtom(varID(ct.v))
+				if ct.down {
+					// counter ≥ 1: -c + 1 ≤ 0, or the equality fact c != 0 for an unsigned counter
+					g := cv.scale(-1)
+					g.c = 1
+					if fs.proveLin(g) {
+						okAny, why = true, ct.v.Name()+" >= 1"
+					}
+					want := varID(ct.v)
+					fs.eqFacts(func(l, r string, val bool, f *Fact) {
+						if !val && ((l == want && r == "0") || (r == want && l == "0")) && isUnsigned(ct.v.Type()) {
+							okAny, why = true, ct.v.Name()+" != 0"
+						}
+					})
+				} else {
+					// counter < bound: c - k + 1 ≤ 0
+					g := cv.add(linAtom(varID(bound)), -1)
+					g.c = 1
+					if fs.proveLin(g) {
+						okAny, why = true, ct.v.Name()+" < "+bound.Name()
+					}
+				}
+			}
+			if okAny {
+				c.r.ok("R38", key, m.pos(call.Pos()), "dominated by "+why, props...)
+			} else {
+				c.r.bad("R38", key, m.pos(call.Pos()), fmt.Sprintf("a pair is yielded at a point where nothing establishes that fewer than %s pairs were delivered in this pass (with %s == 0, or after the %s-th pair, the sequence keeps yielding)", bound.Name(), bound.Name(), bound.Name()), props...)
+			}
+		})
+		if nY == 0 {
+			c.r.ok("R38", u.Name+" bounded sequence yields nothing itself", m.pos(u.Lit.Pos()), "no yield call", props...)
+		}
+	}
+	if n == 0 {
+		c.r.undecided("R38", "bounded sequences found", "tree.go", "no sequence closure capturing an integer bound was found (TopK/BottomK)", "C05")
+	}
 }
